@@ -45,8 +45,9 @@ def observable(c):
         cd = [s.replace('-', '') for s in j.attempts_by_height]
         while cd and cd[-1] == '':
             cd.pop()
-        out.append((str(j.bib), tuple(cd), j.highest_cleared, j.place))
-    return (c.state, tuple(c.heights), tuple(out))
+        out.append((str(j.bib), tuple(cd), '%.2f' % j.highest_cleared, j.place))
+    # heights and bests as the card prints them (two decimals): a caller may have set the bar with a float
+    return (c.state, tuple('%.2f' % h for h in c.heights), tuple(out))
 
 
 def clone(c):
